@@ -4,7 +4,7 @@ quick = the instance run on every change; thorough = the deepest instance that s
 BASE = dict(PidMax=3, TPS=2, UnitsOn="TRUE", CfgSet="Cfg_One", SubmitSet="Sub_Acked", ConnackSet="Ck_Plain",
             AckHows='{"normal"}', AckWhich='{"oldest"}', InPubSet="In_None", Others="{}", Caps="{1, 3}",
             MaxOps=2, MaxConns=2, MaxIn=0, Horizon=0, Deadline=100, EarlyConnack="FALSE", Faithful="FALSE",
-            Which='{"C01"}', KnownRules='{}', ExportDepth=0, ExportEvery=1)
+            Which='{"C01"}', KnownRules='{}', ExportDepth=0, ExportEvery=1, EngDefects='{}')
 
 STATE_INVARIANTS = ["NoPanic", "MonitorsQuiet", "UserOpsTracked", "NoLiveIdTwiceInAQueue", "AllocConsistent", "PendingBound",
                     "NoStrandedWork", "ReceiveMaximumRespected", "Witness", "Export"]
@@ -53,13 +53,28 @@ INSTANCES = {
          "thorough": [inst(Which='{"C14"}', CfgSet="Cfg_KeepAlive", ConnackSet="Ck_Ka", Faithful="TRUE", Horizon=12, Deadline=30, MaxOps=2, SubmitSet="Sub_Acked", Others='{"Pingresp"}', MaxConns=2)]},
  "C15": {"quick": [inst(Which='{"C15"}', CfgSet="Cfg_Policies4", SubmitSet="Sub_All")],
          "thorough": [inst(Which='{"C15"}', CfgSet="Cfg_Policies", SubmitSet="Sub_All", MaxOps=3, MaxConns=2)]},
- "C16": {"quick": [inst(Which='{"C16"}', SubmitSet="Sub_Validation", ConnackSet="Ck_Caps", MaxConns=1, KnownRules='{"timing"}')],
-         "thorough": [inst(Which='{"C16"}', SubmitSet="Sub_Validation", ConnackSet="Ck_Caps", MaxConns=2, MaxOps=3, KnownRules='{"timing"}')]},
+ # second instance: publishes of exact sizes around a 30-byte Maximum Packet Size under every alias resolver (sizes on the wire are exact: Engine.tla PubWire)
+ "C16": {"quick": [inst(Which='{"C16"}', SubmitSet="Sub_Validation", ConnackSet="Ck_Caps", MaxConns=1, KnownRules='{"timing"}'),
+                   inst(Which='{"C16", "C17"}', CfgSet="Cfg_AliasExact", SubmitSet="Sub_Exact", ConnackSet="Ck_Exact", MaxConns=1, MaxOps=3, Caps="{3}", KnownRules='{"timing"}', _export_every=3)],
+         "thorough": [inst(Which='{"C16"}', SubmitSet="Sub_Validation", ConnackSet="Ck_Caps", MaxConns=2, MaxOps=3, KnownRules='{"timing"}'),
+                      inst(Which='{"C16", "C17"}', CfgSet="Cfg_AliasExact", SubmitSet="Sub_Exact", ConnackSet="Ck_Exact", MaxConns=2, MaxOps=3, Caps="{3}", KnownRules='{"timing"}', _export_every=3)]},
  "C17": {"quick": [inst(Which='{"C17"}', CfgSet="Cfg_Alias", SubmitSet="Sub_Alias", ConnackSet="Ck_Alias", MaxOps=3, MaxConns=2, Caps="{3}"),
                    inst(Which='{"C17"}', CfgSet="Cfg_AliasIn", InPubSet="In_Alias", MaxIn=3, MaxOps=0, MaxConns=2, Caps="{3}", ConnackSet="Ck_Plain")],
          "thorough": [inst(Which='{"C17"}', CfgSet="Cfg_Alias", SubmitSet="Sub_Alias", ConnackSet="Ck_Alias", InPubSet="In_Alias", MaxIn=2, MaxOps=3, MaxConns=2)]},
  "C18": {"quick": [inst(Which='{"C18"}', CfgSet="Cfg_Retries", SubmitSet="Sub_Timeouts2", Horizon=3, AckHows='{"normal", "fail"}')],
          "thorough": [inst(Which='{"C18"}', CfgSet="Cfg_PoliciesRetries", SubmitSet="Sub_Timeouts", Horizon=4, MaxConns=3, AckHows='{"normal", "fail"}')]},
+}
+
+# Defect switches of Engine.tla (EngDefects): a bounded instance with the switch set; TLC must refute one of the invariants listed.
+# This is the check of the checks: the instance and the monitor of the property are able to see a slip of that kind on the model
+# (tools/checklib.py run_engine_defects; the counterexample is replayed on the real engine as one more scenario, where it must pass).
+ENGINE_DEFECTS = {
+ "C16": [("validate-before-alias", inst(Which='{"C16"}', CfgSet="Cfg_AliasExact", SubmitSet="Sub_Exact", ConnackSet="Ck_Exact", MaxConns=1, MaxOps=2, Caps="{3}", KnownRules='{"timing"}'), ["MonitorsQuiet"])],
+ "C04": [("pubrec-nomatch-terminal", inst(Which='{"C04"}', SubmitSet="Sub_Q2", AckHows='{"normal", "nomatch"}', MaxConns=1, MaxOps=1, Caps="{3}"), ["MonitorsQuiet"])],
+ "C01": [("pubrec-nomatch-terminal", inst(Which='{"C01"}', SubmitSet="Sub_Q2", AckHows='{"normal", "nomatch"}', MaxConns=1, MaxOps=1, Caps="{3}"), ["MonitorsQuiet"])],
+ "C06": [("alloc-cleared-on-every-connack", inst(Which='{"C06"}', SubmitSet="Sub_Q1", PidMax=2, MaxOps=2, Caps="{3}"), ["AllocConsistent", "MonitorsQuiet"])],
+ "C09": [("qos2-bypasses-receive-maximum", inst(Which='{"C09"}', ConnackSet="Ck_Rm1", MaxOps=2, MaxConns=1, SubmitSet="Sub_Q12Big", Caps="{3}"), ["MonitorsQuiet", "ReceiveMaximumRespected"])],
+ "C10": [("resubmit-unsorted", inst(Which='{"C10"}', SubmitSet="Sub_Q1", MaxOps=2, MaxConns=2, Caps="{3}"), ["MonitorsQuiet"])],
 }
 
 SUBST = {"CfgSet", "SubmitSet", "ConnackSet", "InPubSet"}
